@@ -51,6 +51,11 @@ Fixpoint comment_meta (f : nat) (comment : str) (md : dict str str) : dict str s
           else md
       end
   end.
+(* text.rstrip('\r\n'): a retained CR / LF terminator is not part of the comment (F26 repair) *)
+Fixpoint lstrip_crlf (s : str) : str :=
+  match s with c :: s' => if eqc c 13 || eqc c 10 then lstrip_crlf s' else s | [] => [] end.
+Definition rstrip_crlf (s : str) : str := rev (lstrip_crlf (rev s)).
+
 Fixpoint parse_comments (f : nat) (it : titer) (md : dict str str)
   : outcome (dict str str * titer) :=
   match f with
@@ -59,7 +64,8 @@ Fixpoint parse_comments (f : nat) (it : titer) (md : dict str str)
       t <- peek it ;;
       if tokty_eqb (tty t) COMMENT then
         '(c, it') <- next it ;;
-        parse_comments f' it' (comment_meta (S (length (ttext c))) (ttext c) md)
+        let text := rstrip_crlf (ttext c) in
+        parse_comments f' it' (comment_meta (S (length text)) text md)
       else Ok (md, it)
   end.
 
